@@ -3853,6 +3853,9 @@ def determine_column_projection(expr, parent, dependents, additional_columns=Non
     if (
         len(column_union) == 1
         and parent.ndim == 1
+        # a one-dimensional parent of a one-dimensional expression (a list
+        # selection from the result of a reduction) does not select a scalar label
+        and expr.ndim != 1
         and all(p.ndim == 1 for p in parents)
     ):
         return column_union[0]
